@@ -2,12 +2,19 @@
     per checked selector, as a function of a *database* (label sets with visibility intervals), the rule
     set, the comments and the check settings.
 
-    Modelled exactly: duplicate suppression by selector text, disable/snooze (input flags), the ALERTS /
-    ALERTS_FOR_STATE special case, step 1 (instant count(selector)), the empty bare selector skip, step 2
-    (range count(bare selector) over the lookback window -> no ranges), the recording-rule lookup,
-    checkOtherServer (incl. ignoreMatchingElsewhere) and textAndSeverity (ignoreMetrics).  Steps 3-8 are an
-    opaque continuation ([Steps3to8]).  The probe queries are evaluated on the database by the selector
-    semantics below; the range probe goes through the sliced pipeline of C13 (Model/RangeRef.v [sliced]). *)
+    Modelled: duplicate suppression by selector text, disable/snooze (input flags), the ALERTS /
+    ALERTS_FOR_STATE special case, step 1 (instant count(selector)), the uptime probe and its dummy fallback,
+    the empty bare selector skip, step 2 (range count(bare selector) over the lookback window -> no ranges),
+    the recording-rule lookup, checkOtherServer (incl. ignoreMatchingElsewhere), textAndSeverity
+    (ignoreMetrics), step 3 (absent(bare{label=~".+"}) per positive label name), the accumulated
+    [len(problems) > 0] tests, step 4 (metric disappeared, min-age), steps 5-7 per positive matcher (value never
+    there / disappeared / sometimes there) and step 8 (metric sometimes there), FindGaps against the uptime
+    ranges.  One sub-case stays undetermined ([Undetermined]): step 6 when both the matcher's gaps and the base
+    metric's gaps are non-empty (the gap-vs-gap Overlaps test compares instants taken from two different
+    time.Now() readings a few microseconds apart, which a model with one clock cannot reproduce).
+    What pint ASKS for is part of the model: [instant_request] (no time parameter) and [range_requests]
+    (start/end/step of every slice).  The probes are evaluated on the database by the selector semantics
+    below; every range probe goes through the sliced pipeline of C13 (Model/RangeRef.v [sliced]). *)
 From Coq Require Import List String ZArith NArith Bool Lia.
 From PintV Require Import Common.Bytes Common.GoTime Model.Range Model.RangeRef.
 Import ListNotations.
@@ -31,7 +38,9 @@ Record vsel := mkSel {
   vs_name : string;             (* VectorSelector.Name *)
   vs_matchers : list matcher;   (* VectorSelector.LabelMatchers (the parser adds __name__="Name") *)
   vs_disabled : bool;           (* isDisabled(rule, selector): a "# pint disable promql/series(...)" comment applies *)
-  vs_snoozed : bool             (* isSnoozed(rule, selector) *)
+  vs_snoozed : bool;            (* isSnoozed(rule, selector) *)
+  vs_min_age : Z;               (* getMinAge(rule, selector): 2h unless a "rule/set ... min-age" comment applies *)
+  vs_ignored_labels : list string   (* label names with isLabelValueIgnored(settings, rule, selector, name) *)
 }.
 
 Definition labelset := list (string * string).
@@ -47,7 +56,8 @@ Record settings := mkSet {
   set_lookback : Z;                       (* lookbackRange *)
   set_step : Z;                           (* lookbackStep *)
   set_ignored : list string;              (* bare selector texts matching an ignoreMetrics regexp (table from the harness) *)
-  set_ignore_elsewhere : list (list matcher)   (* ignoreMatchingElsewhere, parsed *)
+  set_ignore_elsewhere : list (list matcher);  (* ignoreMatchingElsewhere, parsed *)
+  set_uptime : string                     (* FailoverGroup.UptimeMetric() *)
 }.
 
 Definition metric_name_label := "__name__".
@@ -55,9 +65,26 @@ Definition summary_nonexistent := "query on nonexistent series".
 Definition summary_unknown_alert := "unknown alert referenced".
 
 Inductive outcome :=
-| Decided (ps : list (string * sev))     (* the problems (summary, severity) emitted for this selector *)
-| Steps3to8                              (* metric present in the lookback window but not now: opaque continuation *)
+| Decided (ps : list (string * sev))     (* the problems (summary, severity) emitted for this selector, in emission order *)
+| Undetermined                           (* depends on sub-millisecond differences between clock readings (step 6,
+                                            both gap lists non-empty) or on an earlier undetermined selector *)
 | OutOfFuel.
+
+Definition prob_eqb (a b : string * sev) : bool := String.eqb (fst a) (fst b) && sev_eqb (snd a) (snd b).
+
+Fixpoint probs_eqb (a b : list (string * sev)) : bool :=
+  match a, b with
+  | [], [] => true
+  | x :: r, y :: s => prob_eqb x y && probs_eqb r s
+  | _, _ => false
+  end.
+
+Definition outcome_eqb (a b : outcome) : bool :=
+  match a, b with
+  | Decided x, Decided y => probs_eqb x y
+  | Undetermined, Undetermined | OutOfFuel, OutOfFuel => true
+  | _, _ => false
+  end.
 
 Section Sem.
   (** Prometheus label matcher regexps: fully anchored match of value against pattern.  No property of it is
@@ -115,17 +142,99 @@ Section Sem.
   Definition has_recording (rules : list rinfo) (n : string) : bool :=
     existsb (fun r => ri_recording r && negb (ri_error r) && String.eqb (ri_name r) n) rules.
 
-  (** the count(...) range probe: one unlabelled series, through RangeQuery's slicing and merging (C13) *)
+  (** * What pint asks the server for (the request parameters that select the evaluation instants)
+
+      instantQuery.Run sends [query], [timeout], [stats] and NO [time] parameter, so a Prometheus-compatible
+      server evaluates the probe at its own clock when the request arrives.  rangeQuery.Run sends
+      [start]/[end]/[step] of every slice that RangeQuery computes from RelativeRange
+      (Start() = time.Now() - lookbackRange, End() = time.Now(), Step() = lookbackStep), printed by formatTime as
+      float seconds, which the server keeps with millisecond precision (the harness keeps the instants on
+      whole milliseconds, see Run/C16.v). *)
+  Record ireq := mkIReq { iq_time : option Z }.
+  Definition instant_request : ireq := mkIReq None.
+  Definition eval_time (server_now : Z) (r : ireq) : Z :=
+    match iq_time r with Some t => t | None => server_now end.
+
+  Record rreq := mkRReq { rq_start : Z; rq_end : Z; rq_step : Z }.
+  Definition range_requests_for (start end_ lookback step : Z) : option (list rreq) :=
+    match query_slices (slice_fuel start end_ (slice_size step)) start end_ lookback step with
+    | None => None
+    | Some sl => Some (map (fun s => mkRReq (fst s) (snd s) step) sl)
+    end.
+  Definition range_requests (now : Z) (st : settings) : option (list rreq) :=
+    range_requests_for (now - set_lookback st) now (set_lookback st) (set_step st).
+
+  (** the instant vector pint's instant probe for a selector gets back *)
+  Definition instant_probe (d : db) (now : Z) (ms : list matcher) : list labelset :=
+    instant_match d (eval_time now instant_request) ms.
+
+  (** the count(...) range probe: one unlabelled series per request, evaluated by the server on the grid
+      start, start+step, ... <= end of that request, folded by streamSampleStream/ExpandRangesEnd, then merged
+      across the slices by RangeQuery (C13) *)
   Definition count_fp : N := 0%N.
 
-  Definition range_probe (d : db) (now : Z) (st : settings) (ms : list matcher) : option (list range) :=
-    let start := now - set_lookback st in
-    match query_slices (slice_fuel start now (slice_size (set_step st))) start now (set_lookback st) (set_step st) with
+  Definition serve_range (pres : presence) (r : rreq) : list range :=
+    per_slice (rq_step r) [(count_fp, pres)] (rq_start r, rq_end r).
+
+  Definition range_probe_pres (now : Z) (st : settings) (pres : presence) : option (list range) :=
+    match range_requests now st with
     | None => None
-    | Some sl =>
-        let l := flat_map (per_slice (set_step st) [(count_fp, sel_presence d ms)]) sl in
+    | Some rs =>
+        let l := flat_map (serve_range pres) rs in
         finalize (merge_fuel l) (set_step st) l
     end.
+
+  Definition range_probe (d : db) (now : Z) (st : settings) (ms : list matcher) : option (list range) :=
+    range_probe_pres now st (sel_presence d ms).
+
+  (** absent(sel) has a value at t iff no series matches *)
+  Definition absent_presence (d : db) (ms : list matcher) : presence := fun t => negb (sel_presence d ms t).
+
+  (** the uptime baseline: count(<uptime metric>) over the window; no result => one dummy range [Start(), End()] *)
+  Definition uptime_ranges (d : db) (now : Z) (st : settings) : option (list range) :=
+    match range_probe d now st [mkM MEq metric_name_label (set_uptime st)] with
+    | None => None
+    | Some [] => Some [mkR count_fp (now - set_lookback st) now]
+    | Some l => Some l
+    end.
+
+  (** SeriesTimeRanges.FindGaps(uptime, From, Until) on a fresh result: From/Until are the window of the query *)
+  Definition gaps_fuel (step from until : Z) : nat := Z.to_nat ((until - from) / step + 3).
+
+  Definition gaps_of (now : Z) (st : settings) (ranges up : list range) : option (list tr) :=
+    let from := now - set_lookback st in
+    find_gaps (gaps_fuel (set_step st) from now) ranges up [] (set_step st) from now.
+
+  (** a range probe together with its gaps *)
+  Definition probe_with_gaps (now : Z) (st : settings) (pres : presence) (up : list range)
+    : option (list range * list tr) :=
+    match range_probe_pres now st pres with
+    | None => None
+    | Some rs => match gaps_of now st rs up with
+                 | None => None
+                 | Some g => Some (rs, g)
+                 end
+    end.
+
+  Definition oldest (rs : list range) : Z :=
+    match rs with [] => 0 | r :: t => fold_left Z.min (map r_start t) (r_start r) end.
+  Definition newest (rs : list range) : Z :=
+    match rs with [] => 0 | r :: t => fold_left Z.max (map r_end t) (r_end r) end.
+
+  Definition is_name (m : matcher) : bool := String.eqb (m_name m) metric_name_label.
+  Definition positive (m : matcher) : bool := match m_type m with MEq | MRe => true | _ => false end.
+
+  (** labelNames: names of the non-__name__ matchers of type = or =~, first occurrences in order *)
+  Fixpoint dedup (l : list string) (seen : list string) : list string :=
+    match l with
+    | [] => []
+    | x :: r => if mem_str x seen then dedup r seen else x :: dedup r (x :: seen)
+    end.
+  Definition label_names (s : vsel) : list string :=
+    dedup (map m_name (filter (fun m => negb (is_name m) && positive m) (vs_matchers s))) [].
+
+  Definition any_overlap (step : Z) (a b : list range) : bool :=
+    existsb (fun x => existsb (fun y => match overlaps x y step with Some _ => true | None => false end) b) a.
 
   (** hasSeriesWithSelector: ANY matcher that matches the value of a label of the same name *)
   Definition series_hit (ms : list matcher) (ls : labelset) : bool :=
@@ -135,13 +244,119 @@ Section Sem.
       series is hit by an ignoreMatchingElsewhere selector *)
   Definition should_report (others : list db) (now : Z) (st : settings) (s : vsel) : bool :=
     negb (existsb (fun od =>
-            let res := instant_match od now (vs_matchers s) in
+            let res := instant_probe od now (vs_matchers s) in
             match res with
             | [] => false
             | _ => existsb (fun ms => existsb (series_hit ms) res) (set_ignore_elsewhere st)
             end) others).
 
-  Definition check_selector (d : db) (others : list db) (now : Z) (st : settings) (rules : list rinfo) (s : vsel) : outcome :=
+  Definition nonexistent (sv : sev) : string * sev := (summary_nonexistent, sv).
+
+  (** textAndSeverity(..., Bug): Warning when the bare selector text matches an ignoreMetrics regexp *)
+  Definition sev_of (st : settings) (s : vsel) : sev :=
+    if mem_str (vs_bare_str s) (set_ignored st) then Warning else Bug.
+
+  (** 3. one label name: absent(bare{name=~".+"}) over the window; a Bug when the label was absent during the whole
+      window (one range, no gap against the uptime) and that range touches a range of the metric itself *)
+  Definition step3_one (d : db) (now : Z) (st : settings) (up trs : list range) (s : vsel) (name : string)
+    : option (list (string * sev)) :=
+    let l := (bare_matchers (vs_matchers s) ++ [mkM MRe name ".+"])%list in
+    match probe_with_gaps now st (absent_presence d l) up with
+    | None => None
+    | Some (ar, ag) =>
+        if any_overlap (set_step st) ar trs && (List.length ar =? 1)%nat && (List.length ag =? 0)%nat
+        then Some [nonexistent Bug] else Some []
+    end.
+
+  Fixpoint step3 (d : db) (now : Z) (st : settings) (up trs : list range) (s : vsel) (names : list string)
+    : option (list (string * sev)) :=
+    match names with
+    | [] => Some []
+    | n :: r => match step3_one d now st up trs s n, step3 d now st up trs s r with
+                | Some a, Some b => Some (a ++ b)%list
+                | _, _ => None
+                end
+    end.
+
+  (** the selector of steps 5-7 for one matcher: VectorSelector{Name: metricName, LabelMatchers: [lm]} plus the
+      __name__ matchers of the checked selector when there is no plain metric name *)
+  Definition label_selector (s : vsel) (lm : matcher) : list matcher :=
+    ((if String.eqb (metric_name s) "" then bare_matchers (vs_matchers s)
+      else [mkM MEq metric_name_label (metric_name s)]) ++ [lm])%list.
+
+  Inductive mres := MProblems (ps : list (string * sev)) | MUndetermined | MOutOfFuel.
+
+  (** 5-7 for one matcher *)
+  Definition step567_one (d : db) (now : Z) (st : settings) (up : list range) (base_gaps : list tr) (s : vsel)
+             (lm : matcher) : mres :=
+    match probe_with_gaps now st (sel_presence d (label_selector s lm)) up with
+    | None => MOutOfFuel
+    | Some (lr, lg) =>
+        match lr with
+        | [] => MProblems [nonexistent (sev_of st s)]                                          (* 5 *)
+        | _ =>
+            if (List.length lr =? 1)%nat
+               && (oldest lr <=? now + (set_lookback st - 1) + set_step st)
+               && (newest lr <? now - set_step st)
+            then                                                                               (* 6 *)
+              match lg, base_gaps with
+              | [], _ => MProblems []                  (* no gap of the matcher outside the base metric's gaps *)
+              | _ :: _, [] =>
+                  if newest lr <? now - vs_min_age s then MProblems [nonexistent (sev_of st s)] else MProblems []
+              | _ :: _, _ :: _ => MUndetermined
+              end
+            else if (1 <? List.length lr)%nat && (0 <? List.length lg)%nat then MProblems [nonexistent Warning]   (* 7 *)
+            else MProblems []
+        end
+    end.
+
+  Fixpoint step567 (d : db) (now : Z) (st : settings) (up : list range) (base_gaps : list tr) (s : vsel)
+           (ms : list matcher) : mres :=
+    match ms with
+    | [] => MProblems []
+    | lm :: r =>
+        match step567_one d now st up base_gaps s lm, step567 d now st up base_gaps s r with
+        | MOutOfFuel, _ | _, MOutOfFuel => MOutOfFuel
+        | MUndetermined, _ | _, MUndetermined => MUndetermined
+        | MProblems a, MProblems b => MProblems (a ++ b)%list
+        end
+    end.
+
+  (** the matchers steps 5-7 look at: not __name__, type = or =~, label not ignored *)
+  Definition value_matchers (s : vsel) : list matcher :=
+    filter (fun m => negb (is_name m) && positive m && negb (mem_str (m_name m) (vs_ignored_labels s))) (vs_matchers s).
+
+  (** steps 3-8: the metric has ranges [trs] in the window but the selector returns nothing now.  [prior] = the
+      accumulated problem list was already non-empty when this selector's turn came. *)
+  Definition steps_3_to_8 (d : db) (now : Z) (st : settings) (prior : bool) (up trs : list range) (s : vsel) : outcome :=
+    match gaps_of now st trs up with
+    | None => OutOfFuel
+    | Some base_gaps =>
+        match step3 d now st up trs s (label_names s) with
+        | None => OutOfFuel
+        | Some p3 =>
+            if prior || negb (match p3 with [] => true | _ => false end) then Decided p3      (* if len(problems) > 0 *)
+            else if (List.length trs =? 1)%nat
+                    && (oldest trs <=? now - set_lookback st + set_step st)
+                    && (newest trs <? now - set_step st)
+            then                                                                              (* 4 *)
+              if newest trs <? now - vs_min_age s then Decided [nonexistent (sev_of st s)] else Decided []
+            else
+              match step567 d now st up base_gaps s (value_matchers s) with
+              | MOutOfFuel => OutOfFuel
+              | MUndetermined => Undetermined
+              | MProblems (x :: r) => Decided (x :: r)                                        (* if len(problems) > 0 *)
+              | MProblems [] =>
+                  match base_gaps with
+                  | _ :: _ => Decided [nonexistent Warning]                                   (* 8 *)
+                  | [] => Decided []
+                  end
+              end
+        end
+    end.
+
+  Definition check_selector (d : db) (others : list db) (now : Z) (st : settings) (rules : list rinfo)
+             (prior : bool) (s : vsel) : outcome :=
     if vs_disabled s || vs_snoozed s then Decided []
     else if is_alerts s then
       let an := alertname_of s in
@@ -149,33 +364,58 @@ Section Sem.
       else if has_alerting rules an then Decided []
       else Decided [(summary_unknown_alert, Bug)]
     else
-      match instant_match d now (vs_matchers s) with
+      match instant_probe d now (vs_matchers s) with
       | _ :: _ => Decided []                                           (* 1. present now *)
       | [] =>
           if String.eqb (vs_bare_str s) "" then Decided []
           else
             match range_probe d now st (bare_matchers (vs_matchers s)) with
             | None => OutOfFuel
-            | Some (_ :: _) => Steps3to8
+            | Some (x :: r) =>
+                match uptime_ranges d now st with
+                | None => OutOfFuel
+                | Some up => steps_3_to_8 d now st prior up (x :: r) s
+                end
             | Some [] =>                                               (* 2. never there *)
-                if has_recording rules (vs_bare_str s) then Decided [(summary_nonexistent, Information)]
+                if has_recording rules (vs_bare_str s) then Decided [nonexistent Information]
                 else if should_report others now st s then
-                  Decided [(summary_nonexistent, if mem_str (vs_bare_str s) (set_ignored st) then Warning else Bug)]
+                  Decided [nonexistent (sev_of st s)]
                 else Decided []
             end
       end.
 
-  (** the loop over selectors with its [done] map *)
+  (** [prior] as far as the model knows it: [Some b] = known, [None] = an earlier selector is undetermined and
+      produced no certain problem.  The verdict under an unknown [prior] is the common value of both, if any. *)
+  Definition verdict (d : db) (others : list db) (now : Z) (st : settings) (rules : list rinfo)
+             (prior : option bool) (s : vsel) : outcome :=
+    match prior with
+    | Some b => check_selector d others now st rules b s
+    | None =>
+        let f := check_selector d others now st rules false s in
+        let t := check_selector d others now st rules true s in
+        if outcome_eqb f t then f else Undetermined
+    end.
+
+  Definition next_prior (prior : option bool) (o : outcome) : option bool :=
+    match prior, o with
+    | Some true, _ => Some true
+    | _, Decided (_ :: _) => Some true
+    | p, Decided [] => p
+    | _, _ => None
+    end.
+
+  (** the loop over selectors with its [done] map and the accumulated problem list *)
   Fixpoint check_all (d : db) (others : list db) (now : Z) (st : settings) (rules : list rinfo)
-           (sels : list vsel) (done : list string) : list (string * outcome) :=
+           (sels : list vsel) (done : list string) (prior : option bool) : list (string * outcome) :=
     match sels with
     | [] => []
     | s :: r =>
-        if mem_str (vs_str s) done then check_all d others now st rules r done
-        else (vs_str s, check_selector d others now st rules s)
-               :: check_all d others now st rules r (vs_str s :: done)
+        if mem_str (vs_str s) done then check_all d others now st rules r done prior
+        else
+          let o := verdict d others now st rules prior s in
+          (vs_str s, o) :: check_all d others now st rules r (vs_str s :: done) (next_prior prior o)
     end.
 
   Definition check (d : db) (others : list db) (now : Z) (st : settings) (rules : list rinfo) (sels : list vsel) :=
-    check_all d others now st rules sels [].
+    check_all d others now st rules sels [] (Some false).
 End Sem.
